@@ -245,7 +245,15 @@ func (n *Node) BuildTx(ts *TxSpec, height uint32) (interfaces.Transaction, error
 		pl = &payload.CoinBase{Content: []byte("elaverif")}
 		version = n.Pow.GetDefaultTxVersion(height)
 		lock = height
+		if len(ts.PDatas) > 0 { // a coinbase copied from another height keeps that lock time
+			if v, err := strconv.ParseUint(ts.PDatas[0], 16, 32); err == nil {
+				lock = uint32(v)
+			}
+		}
 		ins = []*ctypes.Input{{Previous: ctypes.OutPoint{TxID: common.EmptyHash, Index: math.MaxUint16}, Sequence: math.MaxUint32}}
+	case "ra": // RegisterAsset that spends and pays like a transfer
+		txType = ctypes.RegisterAsset
+		pl = &payload.RegisterAsset{Asset: payload.Asset{Name: "Q", Precision: 8}, Amount: 0, Controller: n.Addr(1)}
 	case "wd":
 		txType = ctypes.WithdrawFromSideChain
 		w := &payload.WithdrawFromSideChain{}
@@ -299,7 +307,7 @@ func (n *Node) BuildTx(ts *TxSpec, height uint32) (interfaces.Transaction, error
 		return nil, fmt.Errorf("regnet: cannot build kind %q", ts.Kind)
 	}
 	tx := functions.CreateTransaction(version, txType, ts.PVer, pl, attrs, ins, outs, lock, []*program.Program{})
-	if ts.Kind == "ot" || ts.Kind == "sp" || ts.Kind == "rc" || ts.Kind == "xc" {
+	if ts.Kind == "ot" || ts.Kind == "sp" || ts.Kind == "rc" || ts.Kind == "xc" || (ts.Kind == "ra" && len(ins) > 0) {
 		n.signByOwners(tx)
 	}
 	return tx, nil
